@@ -12,6 +12,18 @@ _DELTA_ASSUME = COMMON_ASSUME + [
 _DELTA_TB = ["src/{sync,async_sync,signature,delta,checksum}.rs are exercised through the copia crate's public API (path dependency on the tree under test); "
              "the CLI commands through the real `copia` binary built from the same tree"]
 
+_OW_ASSUME = COMMON_ASSUME + [
+    "regular files, no file/directory clashes, mtimes at or after the epoch, names not ending in the staging suffix, valid UTF-8 names",
+    "the SSH stand-in runs the remote command with bash in a scratch 'remote home'; GNU find/xargs/touch/mv as installed",
+    "tokio task scheduling is abstracted to 'any order' (proved equivalent); failed transfers (non-zero exit) are outside the compared postcondition",
+]
+_OW_TB = ["the real `copia` binary built from the tree under test; tools/sshstub/ssh as SSH stand-in"]
+_BI_ASSUME = COMMON_ASSUME + [
+    "regular files only, no file/directory clashes, single host, names not ending in the staging suffix; contents are identified with their BLAKE3 (collision-freeness)",
+    "a copy whose source vanished mid-run is modelled as 'stop before this action' (partial conflict-copy writes are not modelled)",
+]
+_BI_TB = ["the real `copia` binary built from the tree under test, run in a sandbox with HOME/HOSTNAME pinned; BLAKE3 of contents computed with the real crate"]
+
 PROPS = {
     "C01": dict(
         modules=["Copia.Props.C01"], namespaces=["Copia.C01"], runner="rust", needs_cli=True,
@@ -22,6 +34,53 @@ PROPS = {
                    "is shown by the differential correspondence (exact op lists), incl. >64 KiB inputs, repeated and weak-colliding blocks, non-legal block sizes at library level.",
         level_note="Trusts Lean's kernel (propext, Classical.choice, Quot.sound), the hand-written model, the harness; BLAKE3 collision-freeness is an explicit hypothesis.",
         technique="Lean 4 proof (loop invariant by induction on fuel: accumulated ops denote the consumed prefix) + differential correspondence across engines",
+    ),
+    "C02": dict(
+        modules=["Copia.Props.C02"], namespaces=["Copia.C02"], runner="bb", bb_module="bb_bisync",
+        assumptions=_BI_ASSUME, trusted_base=_BI_TB,
+        level_text="Kernel-checked decision-level theorem for every (a, b, base) triple: a non-conflict action only ever discards a version that equals the base while the other side differs from it "
+                   "(never a side of a divergent edit, a modified survivor, or a one-sided creation). The whole-run lift holds only under NoNameClash; without it the statement is false of model and code (D10, known finding). "
+                   "Whole runs are tied to the real binary: every real `copia bisync` of generated histories is replayed in the executable Lean model from the observed pre-state (trees, archive) and compared "
+                   "(status, plan, trees, archive); the version-survival oracle runs on the real before/after trees with the true last-synced state tracked by the harness.",
+        level_note="Partial: theorem at decision level + executable whole-run model validated against the binary; trusts the model, the harness, the black-box sandbox (HOME/HOSTNAME pinned).",
+        technique="Lean 4 proof (case analysis over the reconcile table) + executable-model correspondence on histories + version-survival oracle",
+    ),
+    "C06": dict(
+        modules=["Copia.Props.C06"], namespaces=["Copia.C06"], runner="bb", bb_module="bb_bisync",
+        assumptions=_BI_ASSUME, trusted_base=_BI_TB,
+        level_text="Kernel-checked theorems for all maps: a converged pair with a matching record plans nothing (idempotence of the plan); swapping the roots mirrors every decision. "
+                   "Post-state equations (A = B, archive = tree, conflict outcome = max BLAKE3 at the path and the loser at <path>.conflict-<host>-<12 hex>) are carried by the executable model and "
+                   "compared with every real run; oracles: convergence, archive = tree, an immediate real second run plans 0 actions, same final trees under scrambled mtimes and swapped roots.",
+        level_note="Partial: decision-level theorems + executable whole-run model validated against the binary.",
+        technique="Lean 4 proof + executable-model correspondence on histories + convergence/idempotence/independence oracles",
+    ),
+    "C07": dict(
+        modules=["Copia.Props.C07"], namespaces=["Copia.C07"], runner="bb", bb_module="bb_bisync",
+        assumptions=_BI_ASSUME + ["`Archive::load` = none for every fault kind is checked on the real binary (SAFE banner vs the harness's strict-JSON prediction), not proved (serde_json is not modelled)"],
+        trusted_base=_BI_TB,
+        level_text="Kernel-checked theorems for ALL tree pairs: with an untrusted archive the plan contains no delete, no non-delete action ever removes a path, hence a whole run (even one that stops on an I/O error) "
+                   "removes no file from either side. Tie: byte-level archive faults (absent, zero-length, every truncation point sampled, garbage, wrong shape, format_version≠1, other pair, only .bak/.tmp) injected into real "
+                   "histories; real outcome compared with the model's no-base run; oracle: nothing deleted and every version still on both sides.",
+        level_note="Trusts Lean's kernel, the model of apply/reconcile, the harness; content survival (as opposed to path survival) is oracle-checked.",
+        technique="Lean 4 proof (induction over the plan) + fault-injection correspondence on the real archive file",
+    ),
+    "C04": dict(
+        modules=["Copia.Props.C04"], namespaces=["Copia.C04"], runner="bb", bb_module="bb_oneway",
+        assumptions=_OW_ASSUME, trusted_base=_OW_TB,
+        level_text="Kernel-checked theorems for ALL trees/flags over the run model: destination after a run = (deleted if in delete; source entry with the source's whole-second mtime if in transfer; untouched otherwise), "
+                   "nothing outside the plan is touched, an empty source without --delete is a no-op, and ORDER INDEPENDENCE: any completion order of the parallel transfers/deletes gives the same destination. "
+                   "With C19's theorems the plan itself is the set definition. Tie: real `copia sync -r` in all three directions (SSH stand-in) on trees with hostile names, every per-file destination state, flag sets incl. --jobs; "
+                   "predicted destination (bytes, whole-second mtime, untouched sub-second parts) and printed plan compared; oracles: source unchanged, no staging file left.",
+        level_note="Model-level proof + black-box tie; the remote shell commands (cat/mv/touch/find/xargs) and tokio scheduling are trusted/abstracted (any order is proved equivalent). Non-zero exits are counted, their partial effects are not compared.",
+        technique="Lean 4 proof (lookup characterisation of folds, permutation invariance) + black-box correspondence in three directions",
+    ),
+    "C14": dict(
+        modules=["Copia.Props.C14"], namespaces=["Copia.C14"], runner="bb", bb_module="bb_oneway",
+        assumptions=_OW_ASSUME, trusted_base=_OW_TB,
+        level_text="Kernel-checked theorems for ALL trees/flags: immediately after a run the same command plans no transfer and no delete; a file is sent only if absent or differing in size/whole-second mtime. "
+                   "Tie: real immediate second runs in all three directions with mtimes 0, sub-second, year 3000: plan must be 0/0 and both trees byte- and mtime-identical.",
+        level_note="Model-level proof + black-box second runs; floor-of-mtime through each writer/reader pair is validated, not proved.",
+        technique="Lean 4 proof over the run model + black-box second-run correspondence",
     ),
     "C05": dict(
         modules=["Copia.Props.C05"], namespaces=["Copia.C05"], runner="rust", needs_cli=True,
@@ -74,7 +133,7 @@ PROPS = {
         technique="Lean 4 proof (soundness/completeness of the backtracking matcher by induction on fuel with a measure; list lemmas for the planner) + exhaustive differential correspondence",
     ),
     "C15": dict(
-        modules=["Copia.Props.C15"], namespaces=["Copia.C15"], runner="rust",
+        modules=["Copia.Props.C15", "Copia.Props.C04"], namespaces=["Copia.C15", "Copia.C04.dry_run"], runner=["rust", "bb"], bb_module="bb_oneway",
         assumptions=COMMON_ASSUME + [
             "names are valid UTF-8 (`to_string_lossy` is the identity)",
             "dry-run clause: decided by the black-box correspondence on the real CLI (see DESIGN.md §5 C15); the theorems here cover exclusion semantics, protection and opt-in deletes",
